@@ -165,6 +165,11 @@ def server_cases(ck, rng):
     for a in small:
         for b in small:
             cases.append({"kind": "server", "mws": [], "ops": [a], "throw": True, "onerror": [b]})
+    # an uncaught throw in the handler behind one middleware: the after-$next calls are skipped, onError runs
+    for a in small[:8]:
+        for b in small[:8]:
+            cases.append({"kind": "server", "mws": [{"prio": 0, "pre": [a], "post": [["write", "NEVER"]]}], "ops": [b],
+                          "throw": True, "onerror": [["status", 500], ["write", "E"]]})
     for a in small[:8]:
         for b in small[:8]:
             for c in small[:8]:
@@ -186,7 +191,7 @@ def server_cases(ck, rng):
         nm = rng.randint(0, 2)
         mws = [{"prio": rng.choice([-1, 0, 0, 5]), "pre": [rand_op(rng, True) for _ in range(rng.randint(0, 2))],
                 "post": [rand_op(rng, True) for _ in range(rng.randint(0, 2))]} for _ in range(nm)]
-        thr = nm == 0 and rng.random() < 0.5
+        thr = rng.random() < 0.5
         hops = [rand_op(rng, True) for _ in range(rng.randint(0, 4))]
         onf = rng.random() < 0.4
         if onf and rng.random() < 0.7:
